@@ -106,34 +106,34 @@ def proj_full(calls):
 
 # nontrivial: rule per property on the stats the monitors measured
 PROPS = {
-    "C01": dict(proj=proj_c01, gen={}, hist=False,
+    "C01": dict(proj=proj_c01, gen={}, hist="some",
                 nontrivial=lambda st, case: st.get("finished") and st.get("services_started", 0) >= 2,
                 rule="order ran to completion with >= 2 services"),
-    "C02": dict(proj=proj_order, gen={}, hist=False,
+    "C02": dict(proj=proj_order, gen={}, hist="some",
                 nontrivial=lambda st, case: st.get("handovers", 0) >= 3,
                 rule=">= 3 statement hand-overs (adjacent statements of a block both visible) checked"),
-    "C03": dict(proj=proj_order, gen={"focus": ["par"]}, hist=False,
+    "C03": dict(proj=proj_order, gen={"focus": ["par"]}, hist="some",
                 nontrivial=lambda st, case: st.get("par", 0) >= 1,
                 rule=">= 1 Parallel block executed"),
-    "C04": dict(proj=proj_decisions, gen={"focus": ["cond"]}, hist=False,
+    "C04": dict(proj=proj_decisions, gen={"focus": ["cond"]}, hist="some",
                 nontrivial=lambda st, case: st.get("cond", 0) >= 1,
                 rule=">= 1 Condition evaluated"),
-    "C05": dict(proj=proj_decisions, gen={"focus": ["cloop", "wloop"]}, hist=False,
+    "C05": dict(proj=proj_decisions, gen={"focus": ["cloop", "wloop"]}, hist="some",
                 nontrivial=lambda st, case: st.get("cloop_iters", 0) + st.get("wloop_iters", 0) >= 1,
                 rule=">= 1 loop iteration executed"),
-    "C06": dict(proj=proj_order, gen={"focus": ["ploop"]}, hist=False,
+    "C06": dict(proj=proj_order, gen={"focus": ["ploop"]}, hist="some",
                 nontrivial=lambda st, case: st.get("ploop", 0) >= 1,
                 rule=">= 1 parallel loop executed"),
-    "C07": dict(proj=proj_order, gen={}, hist=False,
+    "C07": dict(proj=proj_order, gen={}, hist="some",
                 nontrivial=lambda st, case: st.get("tasks_started", 0) >= 2 and st.get("services_started", 0) >= 2,
                 rule=">= 2 task instances and >= 2 service instances"),
     "C08": dict(proj=proj_c08, gen={}, hist=True,
                 nontrivial=lambda st, case: st.get("junk_calls", 0) >= 1,
                 rule=">= 1 junk / duplicate / repeated-start call in the history"),
-    "C14": dict(proj=proj_full, gen={"focus": ["cloop", "call"]}, hist=False, ids="both",
+    "C14": dict(proj=proj_full, gen={"focus": ["cloop", "call"]}, hist="some", ids="both",
                 nontrivial=lambda st, case: st.get("tasks_started", 0) >= 2 and st.get("services_started", 0) >= 3,
                 rule=">= 2 task and >= 3 service instances"),
-    "C15": dict(proj=proj_c15, gen={"focus": ["cloop", "ploop", "call"]}, hist=False, mutate="half",
+    "C15": dict(proj=proj_c15, gen={"focus": ["cloop", "ploop", "call"]}, hist="some", mutate="half",
                 nontrivial=lambda st, case: st.get("params_delivered", 0) >= 2,
                 rule=">= 2 notifications with non-empty parameter lists"),
     "C17": dict(proj=proj_c17, gen={}, hist=True,
@@ -196,6 +196,12 @@ def job_run(case):
 def job_gen_run(args):
     seed, opts = args
     rng = random.Random(seed)
+    hist = opts.get("hist", False)
+    if hist == "some":
+        # a third of the cases of every scheduling property run under a noisy API history (registrations in any
+        # order and mid-run, repeated start(), junk and duplicate events): rejected calls must not matter
+        hist = random.Random(seed ^ 0x5EED).random() < 0.33
+    opts = dict(opts, hist=hist)
     case = sc.gen_case(rng, depth=opts.get("depth", 3), hist=opts.get("hist", False), max_ops=opts.get("max_ops", 40),
                        **opts.get("gen", {}))
     ids = opts.get("ids", "test")
